@@ -390,7 +390,8 @@ META = dict(
                "it is what is checked.",
     bounds=dict(quick="step: tables of 0..2 symbolic ids x all 16 duplicate-free callback lists over 3 callbacks x 4 "
                       "operations; histories k<=3; node replace/remove for ids 1, 2, 127 x {remote, local}; outgoing "
-                      "data lengths 0..8; scanner sequences of <=3 symbolic 29-bit ids",
+                      "data lengths 0..8 (periodic frames also after update(), on buses with and without modify_data); scanner "
+                      "sequences of <=3 symbolic 29-bit ids",
                 thorough="histories k<=4"),
     outside_bounds=["a callback that (un)subscribes during dispatch", "the real notifier thread",
                     "tables with more than 2 ids in the step (uniform code)"],
